@@ -207,6 +207,21 @@ def order(ck, prog):
           f"not over a sorted or de-duplicated copy: {why}", loc=f.loc())
 
 
+def _idx_root(f, op):
+    """identity of an index value: the local it is a plain copy of"""
+    from ..cfg import single_def
+    l = op_local(op, pure=True)
+    for _ in range(8):
+        d = single_def(f, l)
+        if d is None or d[1] == "T" or d[2]["rv"]["k"] != "use":
+            break
+        n = op_local(d[2]["rv"]["a"], pure=True)
+        if n is None:
+            break
+        l = n
+    return l
+
+
 def leaf_order(ck, prog):
     """prove_batch, from_paths (builders) and get_root, into_paths (readers) are siblings over one data layout; a builder that stores leaf k of the
     SORTED list at slot k produces an opening the readers misread for every unsorted position list"""
@@ -283,5 +298,79 @@ def leaf_order(ck, prog):
             ck.ob("L", f"{f0.nname.split('::')[-1]}:leaves-by-position", False,
                   f"{f0.nname.split('::')[-1]} places every leaf at the slot the position map gives for it (caller order); it appends leaves instead "
                   f"({pushed} push site(s)), i.e. stores them in the order it walks the positions", loc=f0.loc())
+    # parallel indexing: two sequences read with ONE counter must be in the same order. A list re-ordered through a BTreeMap (keys/values:
+    # ascending positions) read side by side with a caller-ordered parameter pairs position k of the sorted list with item k of the
+    # caller's list (seed C10-L: `paths[i]` next to the sorted `indexes[i]` after the re-arranged copy of `paths` was optimised away).
+    SORTED = ("BTreeMap::keys", "BTreeMap::values", "BTreeMap::into_keys", "BTreeMap::into_values", "BTreeMap::iter", "BTreeMap::into_iter",
+              "slice::sort", "slice::sort_unstable", "BTreeSet::iter", "BTreeSet::into_iter")
+    n_par = 0
+    for f in [prog.inl(prog.fn(BMP + "::from_paths")), prog.inl(prog.fn(BMP + "::get_root")), prog.inl(prog.fn(BMP + "::into_paths")),
+              prog.inl(prog.fn(MT + "::prove_batch"))]:
+        g = flow(f)
+        reads = []
+        for b, t in f.calls():
+            if not (callee_name(t) or "").endswith("Index::index") or len(t["args"]) != 2:
+                continue
+            il = op_local(t["args"][1], pure=True)
+            if il is None or not f.local_ty(il).startswith(("usize",)):
+                continue
+            root = _idx_root(f, t["args"][1])
+            w = g.walk(ops=[t["args"][0]], at=(b, "T"), through=lambda tt: True)
+            nms = g.callee_names_in(w, closures=True)
+            is_sorted = any(x.endswith(SORTED) for x in nms)
+            params = {f.local_name(p) for p in g.params_in(w)}
+            reads.append((b, root, is_sorted, params, bool(g.fields_in(w))))
+        # built-in slice indexing is a place projection, not a call
+        def places_of(b, blk):
+            for i, st in enumerate(blk["s"]):
+                if st.get("k") != "assign":
+                    continue
+                rv = st["rv"]
+                for key in ("a", "b"):
+                    o = rv.get(key)
+                    if isinstance(o, dict):
+                        pl = o.get("copy") or o.get("move")
+                        if pl:
+                            yield i, pl
+                if isinstance(rv.get("p"), dict):
+                    yield i, rv["p"]
+                for o in rv.get("ops", []) or []:
+                    pl = o.get("copy") or o.get("move")
+                    if pl:
+                        yield i, pl
+            t = blk["t"]
+            if t["k"] == "call":
+                for o in t["args"]:
+                    pl = o.get("copy") or o.get("move")
+                    if pl:
+                        yield "T", pl
+        for b, blk in enumerate(f.blocks):
+            for i, pl in places_of(b, blk):
+                proj = pl.get("p", [])
+                for k, e in enumerate(proj):
+                    if isinstance(e, dict) and "idx" in e:
+                        basep = {"l": pl["l"], "p": proj[:k]} if proj[:k] else {"l": pl["l"]}
+                        root = _idx_root(f, {"copy": {"l": e["idx"]}})
+                        w = g.walk(places=[basep], at=(b, i), through=lambda tt: True)
+                        nms = g.callee_names_in(w, closures=True)
+                        reads.append((b, root, any(x.endswith(SORTED) for x in nms), {f.local_name(q) for q in g.params_in(w)}, bool(g.fields_in(w))))
+                        break
+        by_root = {}
+        for r in reads:
+            by_root.setdefault(r[1], []).append(r)
+        for root, rs in by_root.items():
+            srt = [r for r in rs if r[2]]
+            raw = [r for r in rs if not r[2] and r[3] and not r[4]]
+            if srt and raw:
+                n_par += 1
+                for r in raw:
+                    ck.ob("L", f"{f.nname.split('::')[-1]}:parallel-index:{'+'.join(sorted(x for x in r[3] if x))}", False,
+                          f"{f.nname.split('::')[-1]}: sequences read with one counter are in one order", loc=f.loc(r[0], "T"),
+                          detail=f"the caller-ordered parameter {sorted(x for x in r[3] if x)} is indexed with the counter that also indexes a list sorted "
+                                 "through a BTreeMap: item k of the caller's list is paired with the k-th smallest position")
+            elif len(srt) >= 2:
+                n_par += 1
+                ck.ob("L", f"{f.nname.split('::')[-1]}:parallel-index#{n_par}", True,
+                      f"{f.nname.split('::')[-1]}: the lists read side by side with one counter were re-ordered through the same sorted map", loc=f.loc(srt[0][0], "T"))
     ck.floor("reads of BatchMerkleProof.leaves", n_r, 6)
     ck.floor("writes of a leaves vector under construction", n_w, 2)
